@@ -179,6 +179,10 @@ func (m *model) allowed(op *Op, id uint32) allowSet {
 			}
 			return ok("§8.1: trailers (HEADERS with END_STREAM)", next)
 		case "headers2", "headers":
+			if op.NoEndHdrs {
+				// the block goes on: the stream error may be held back until END_HEADERS (§4.3: the block is decoded in any case)
+				return allowSet{OK: true, SE: []uint32{cProtocol}, CE: []uint32{cProtocol}, Why: "§8.1: a second HEADERS without END_STREAM is malformed (block unfinished)", Next: mOpenHdr}
+			}
 			return se("§8.1: a second HEADERS without END_STREAM is malformed", cProtocol)
 		case "continuation":
 			return ce("CONTINUATION without a header block", cProtocol)
@@ -298,6 +302,9 @@ func (m *model) apply(op *Op, id uint32, a allowSet, observed string) {
 	}
 	prev := m.state(id)
 	if prev == mIdle && (op.Kind == "headers2" || op.Kind == "trailers") && id%2 == 1 && !m.implicitlyClosed(id) {
+		m.malformed[id] = true
+	}
+	if prev == mOpen && (op.Kind == "headers2" || op.Kind == "headers") && op.NoEndHdrs {
 		m.malformed[id] = true
 	}
 	switch op.Kind {
